@@ -383,6 +383,10 @@ Definition mean_close (q maxabs : Q) (o : option dbl) : bool :=
 (* correspondence form for an integer-backed column (all cells present): the implementation's MEAN is
    the exact mean of the integers, and -- whenever the total leaves the int64 range -- NOT the wrapped one *)
 Definition int_mean_ok (cells : list Z) (o : option dbl) : bool :=
+  match cells with
+  | [] => match o with None => true | Some _ => false end      (* no usable value: the NaN default *)
+  | _ =>
   let maxabs := inject_Z (fold_right (fun z a => Z.max (Z.abs z) a) 0%Z cells) in
   mean_close (int_mean cells) maxabs o
-  && ((Z.leb (- 2 ^ 63) (zsum cells) && Z.ltb (zsum cells) (2 ^ 63)) || negb (mean_close (wrapped_mean cells) maxabs o)).
+  && ((Z.leb (- 2 ^ 63) (zsum cells) && Z.ltb (zsum cells) (2 ^ 63)) || negb (mean_close (wrapped_mean cells) maxabs o))
+  end.
